@@ -12,7 +12,7 @@ A_COMMON = [
 
 
 def _rand_c01(rng, tier, sc0):
-    n = 150 if tier == "quick" else 3000
+    n = 300 if tier == "quick" else 6000
     out = []
     for i in range(n):
         c = G.rand_cfg(rng, parts=(i % 3 == 0))
@@ -20,7 +20,18 @@ def _rand_c01(rng, tier, sc0):
             c = {"rot": False, "naming": "Num", "mode": c["mode"], "cap": c.get("cap", 64), "crlf": c["crlf"],
                  "flush_ms": c.get("flush_ms", 0)}
         nrec = rng.choice([5, 20, 60]) if tier == "quick" else rng.choice([5, 20, 60, 200])
-        out.append({"sc": sc0 + i, "cfg": c, "t0": G.boundary_t0(rng), "steps": G.rand_history(rng, c, nrec),
+        steps = G.rand_history(rng, c, nrec)
+        if i % 2 == 1:
+            # the stream stays complete and ordered over restarts as well (with rotation or append nothing is truncated;
+            # the documented truncation of a non-rotated file re-opened without append is part of the monitor's history)
+            steps = []
+            for _ in range(rng.choice([2, 3, 4])):
+                h = G.rand_history(rng, c, rng.choice([3, 8, 20, 40]))
+                h[0]["append"] = rng.random() < 0.5
+                steps += h
+                if rng.random() < 0.5:
+                    steps.append({"op": "Adv", "dt": rng.choice([1, 2, 61, 3600, 86400])})
+        out.append({"sc": sc0 + i, "cfg": c, "t0": G.boundary_t0(rng), "steps": steps,
                     "origin": "rand", "obs": "every" if nrec <= 20 else "sync"})
     return out
 
